@@ -20,6 +20,8 @@ pub struct GenOpts {
     pub c_fields: bool,
     /// line / block comment directly after a block opener (`then`, `do`, `else`, `repeat`, function header)
     pub c_after_opener: bool,
+    /// line comments between the members of the union / intersection of a type declaration
+    pub c_type_members: bool,
     /// redundant parentheses (conditions, sub-expressions) even in `clean` programs
     pub redundant_parens: bool,
     /// comment on its own line after the last statement of a nested block (before `end` / `else` / `until`)
@@ -53,6 +55,7 @@ impl GenOpts {
             c_before_then: false,
             c_block_end: false,
             redundant_parens: false,
+            c_type_members: false,
             c_anywhere: false,
             ignores: false,
             inner_newlines: true,
@@ -66,7 +69,7 @@ impl GenOpts {
         GenOpts { inner_newlines: false, clean: true, flat: true, ..GenOpts::plain() }
     }
     pub fn stmt_comments() -> GenOpts {
-        GenOpts { c_before_stmt: true, c_after_stmt_block: true, c_after_stmt_line: true, c_after_opener: true, c_fields: true, c_before_then: true, c_block_end: true, ..GenOpts::plain() }
+        GenOpts { c_before_stmt: true, c_after_stmt_block: true, c_after_stmt_line: true, c_after_opener: true, c_fields: true, c_before_then: true, c_block_end: true, c_type_members: true, ..GenOpts::plain() }
     }
 }
 
@@ -509,7 +512,7 @@ impl<'a, 'b> G<'a, 'b> {
                 self.push("while");
                 self.sp();
                 self.cond_expr();
-                self.sp();
+                self.cond_gap(false);
                 self.push("do");
                 self.in_loop += 1;
                 self.nested_block();
@@ -890,12 +893,10 @@ impl<'a, 'b> G<'a, 'b> {
         }
     }
 
-    fn if_stmt(&mut self) {
-        self.labels.insert("s:if");
-        self.push("if");
-        self.sp();
-        self.cond_expr();
-        if self.o.c_before_then && self.t.chance(40) {
+    /// the gap between a condition and its `then` / `do`: a blank, a comment on its own line, or a line comment at the
+    /// end of the condition's line with the keyword on the next line
+    fn cond_gap(&mut self, own_line: bool) {
+        if self.o.c_before_then && own_line && self.t.chance(40) {
             self.push("\n");
             self.write_indent(1);
             let c = if self.t.chance(128) { self.block_comment() } else { self.line_comment() };
@@ -903,9 +904,24 @@ impl<'a, 'b> G<'a, 'b> {
             self.push("\n");
             self.write_indent(0);
             self.labels.insert("c:before-then");
+        } else if self.o.c_before_then && self.t.chance(24) {
+            let c = self.line_comment();
+            self.push(" ");
+            self.push(&c);
+            self.push("\n");
+            self.write_indent(0);
+            self.labels.insert("c:after-condition");
         } else {
             self.sp();
         }
+    }
+
+    fn if_stmt(&mut self) {
+        self.labels.insert("s:if");
+        self.push("if");
+        self.sp();
+        self.cond_expr();
+        self.cond_gap(true);
         self.push("then");
         self.nested_block();
         let n = if self.budget > 0 { self.t.pick(3).min(self.t.pick(3)) } else { 0 };
@@ -913,7 +929,7 @@ impl<'a, 'b> G<'a, 'b> {
             self.push("elseif");
             self.sp();
             self.cond_expr();
-            self.sp();
+            self.cond_gap(false);
             self.push("then");
             self.nested_block();
         }
@@ -1021,7 +1037,61 @@ impl<'a, 'b> G<'a, 'b> {
                 self.sp();
                 self.push("=");
                 self.sp();
-                self.type_expr(3);
+                if self.o.c_type_members && self.t.chance(50) {
+                    // a union / intersection written one member per line, with line comments after a member, after an
+                    // operator (in front of the next member) or on a line of their own
+                    self.labels.insert("c:type-members");
+                    let op = if self.t.chance(128) { "|" } else { "&" };
+                    let n = 2 + self.t.pick(3);
+                    for i in 0..n {
+                        if i > 0 {
+                            match self.t.pick(4) {
+                                0 => {
+                                    // `A &⏎ -- c⏎ B`
+                                    self.push(" ");
+                                    self.push(op);
+                                    self.push("\n");
+                                    self.write_indent(1);
+                                    let c = self.line_comment();
+                                    self.push(&c);
+                                    self.push("\n");
+                                    self.write_indent(1);
+                                }
+                                1 => {
+                                    // `A -- c⏎ & B`
+                                    let c = self.line_comment();
+                                    self.push(" ");
+                                    self.push(&c);
+                                    self.push("\n");
+                                    self.write_indent(1);
+                                    self.push(op);
+                                    self.push(" ");
+                                }
+                                2 => {
+                                    // `A⏎ -- c⏎ & B`
+                                    self.push("\n");
+                                    self.write_indent(1);
+                                    let c = self.line_comment();
+                                    self.push(&c);
+                                    self.push("\n");
+                                    self.write_indent(1);
+                                    self.push(op);
+                                    self.push(" ");
+                                }
+                                _ => {
+                                    self.push("\n");
+                                    self.write_indent(1);
+                                    self.push(op);
+                                    self.push(" ");
+                                }
+                            }
+                        }
+                        let t = ["Alpha", "\"lit\"", "{ x: number }", "Beta<T>", "nil"][self.t.pick(5)];
+                        self.push(t);
+                    }
+                } else {
+                    self.type_expr(3);
+                }
             }
             _ => self.local_assign(),
         }
@@ -1365,6 +1435,12 @@ impl<'a, 'b> G<'a, 'b> {
                     self.push(&c);
                     self.labels.insert("c:after-field-sep");
                 }
+            } else if multiline && self.o.c_fields && self.t.chance(90) {
+                // the last field, written without a separator, followed by a line comment
+                let c = self.line_comment();
+                self.push(" ");
+                self.push(&c);
+                self.labels.insert("c:after-last-field");
             }
         }
         if multiline {
